@@ -38,7 +38,7 @@ def ACOSH(number):
     number = utils.parse_number(number)
     if isinstance(number, error.XLError):
         return number
-    return math.log(number + math.sqrt(number * number - 1))
+    return math.acosh(number)  # log(x + sqrt(x*x - 1)) overflows from 1e155 on and is infinite for large negative x
 
 
 @dispatcher.register_for('ACOT')
@@ -328,7 +328,7 @@ def RADIANS(number):
     number = utils.parse_number(number)
     if isinstance(number, error.XLError):
         return number
-    return number * math.pi / 180
+    return math.radians(number)  # number * pi overflows near the top of the range
 
 
 @dispatcher.register_for('DEGREES')
@@ -336,7 +336,7 @@ def DEGREES(number):
     number = utils.parse_number(number)
     if isinstance(number, error.XLError):
         return number
-    return number * 180 / math.pi
+    return math.degrees(number)
 
 
 @dispatcher.register_for('PRODUCT')
